@@ -127,7 +127,8 @@ class UpdateContextFromStatic(object):
         return self._context == other._context
 
     def _set_context(self, context):
-        self._context = context
+        # later elements of the sequence can change the context in place
+        self._context = deepcopy(context)
 
     def run(self, flow):
         for val in flow:
